@@ -536,8 +536,8 @@ def validate_name(name):
         raise Expect(['InvalidArgumentTypeException'], 'name not a string')
     if NAME_RE.match(name) is not None:
         return
-    if re.fullmatch(r'[A-Za-z_]\w*', name) is not None:
-        raise Unspec('group name with non-ASCII word characters')
+    if re.fullmatch(r'[A-Za-z_]\w*', name) is not None and name.isidentifier():
+        return          # "word characters only, starting with a non-digit": a non-ASCII identifier is a valid name
     raise Expect(['InvalidCapturingGroupNameException'], 'bad group name')
 
 
@@ -975,6 +975,18 @@ ALL_FEATURES = ('cat', 'alt', 'enc', 'q', 'grp', 'cap', 'anchor', 'look', 'cls',
                 'meta', 'uni', 'ws', 'frag', 'strarg')
 
 
+# characters with surprising properties: NFC-unstable singletons, combining marks, noncharacters, BOM, separators that are
+# not \n, invisible / bidi controls, digits that are isdigit() but not isdecimal() (and vice versa), case-mapping oddities,
+# astral and jamo code points, the first and last code points
+SPECIAL_UNI = list('\u2126\u212a\u212b\u037e\u0387\u0340\u0343\u1f71\u2000\uf900\ufb1d'
+                   '\u0301\u0308\u200d\ufe0f'
+                   '\ufdd0\ufdef\ufffe\uffff\U0001fffe\U0010ffff'
+                   '\ufeff\x85\u2028\u2029\u200b\u200e\u202e\xad\xa0\x1c\x1f'
+                   '\xb2\xb3\xb9\u2070\u2080\u2460\u0663\u0966\U0001d7d8\u0660\u2155'
+                   '\xdf\u1e9e\u01c5\u0130\u0131\u017f\ufb01\u03a3\u03c2\xb5'
+                   '\U0001F600\U00010000\u1100\u1161\x00\x7f\x80')
+
+
 def char_strategy(features):
     from hypothesis import strategies as st
     groups = [st.sampled_from(list('abcxyzABZ019_'))] * 2
@@ -984,7 +996,7 @@ def char_strategy(features):
         groups += [st.sampled_from(list('\n\t\r\x0b\x0c \x00\x7f'))]
     groups += [st.sampled_from(list('\'"#<>=!:&~,P%@;`'))]
     if 'uni' in features:
-        groups += [st.characters(exclude_categories=['Cs']), st.sampled_from(list('äßΩж한א€٣\u2028\U0001F600ǅİ'))]
+        groups += [st.characters(exclude_categories=['Cs']), st.sampled_from(list('äßΩж한א€٣\u2028\U0001F600ǅİ')), st.sampled_from(SPECIAL_UNI)]
     return st.one_of(*groups)
 
 
@@ -1016,7 +1028,7 @@ def simple_class_strategy(features):
     """Valid class leaves (class defects are C06/C07's business; here they are just operands)."""
     from hypothesis import strategies as st
     safe = st.sampled_from(list('abcxyzABZ019_ ,;:!#%&<>=@~"\''))
-    risky = st.sampled_from(list('?*+{}().|$^-]['))
+    risky = st.sampled_from(list('?*+{}().|$^-][\\/\\'))
     c = st.one_of(safe, safe, risky) if 'meta' in features else safe
     named = st.sampled_from(NAMED_CLASSES).map(lambda n: ['named', n])
     word = st.booleans().map(lambda g: ['word', g])
@@ -1043,7 +1055,7 @@ def leaf_strategy(features):
     return st.one_of(*opts)
 
 
-NAMES = ['n', 'g1', '_x', 'Name', 'a', 'k2']
+NAMES = ['n', 'g1', '_x', 'Name', 'a', 'k2', 'a\u00f1o', 'gr\u00f6\u00dfe', 'n_\u04361']
 
 
 def tree_strategy(features=ALL_FEATURES, max_leaves=6, look_kinds=('fb', 'pb', 'eb', 'nfb', 'npb', 'neb'), leaf=None):
